@@ -186,6 +186,11 @@ func PrimaryPackage(gocmd, path string, files []string) (*PkgInfo, error) {
 
 	setDefault(info)
 	setAliases(info)
+	// aliases take part in the duplicate check, so it has to run after they
+	// have been collected.
+	if err := checkDupes(info, info.Imports); err != nil {
+		return nil, err
+	}
 	return info, nil
 }
 
@@ -200,7 +205,16 @@ func checkDupes(info *PkgInfo, imports []*Import) error {
 			funcs[target] = append(funcs[target], f)
 		}
 	}
-	for alias, f := range info.Aliases {
+	// sorted, so that the same error is reported on every run
+	aliases := make([]string, 0, len(info.Aliases))
+	for alias := range info.Aliases {
+		aliases = append(aliases, alias)
+	}
+	sort.Strings(aliases)
+	for _, name := range aliases {
+		f := info.Aliases[name]
+		// names are matched case-insensitively on the command line
+		alias := strings.ToLower(name)
 		if len(funcs[alias]) != 0 {
 			var ids []string
 			for _, f := range funcs[alias] {
@@ -453,10 +467,6 @@ func setImports(gocmd, dir string, pi *PkgInfo) error {
 		}
 		imports = append(imports, imp)
 	}
-	if err := checkDupes(pi, imports); err != nil {
-		return err
-	}
-
 	// have to set unique package names on imports
 	used := map[string]bool{}
 	for _, imp := range imports {
